@@ -29,11 +29,22 @@ pub fn set_sink(f: Sink) {
     *SINK.write().unwrap_or_else(|e| e.into_inner()) = Some(f);
 }
 
+/// Runs with a hundred thousand charged entries switch the observers off: every admission event
+/// carries the full table of charges.
+static MUTED: std::sync::atomic::AtomicBool = std::sync::atomic::AtomicBool::new(false);
+
+pub fn set_muted(m: bool) {
+    MUTED.store(m, std::sync::atomic::Ordering::SeqCst);
+}
+
 pub fn enabled() -> bool {
-    SINK.read().map(|g| g.is_some()).unwrap_or(false)
+    !MUTED.load(std::sync::atomic::Ordering::SeqCst) && SINK.read().map(|g| g.is_some()).unwrap_or(false)
 }
 
 pub fn emit(o: Obs) {
+    if MUTED.load(std::sync::atomic::Ordering::SeqCst) {
+        return;
+    }
     if let Ok(g) = SINK.read() {
         if let Some(f) = g.as_ref() {
             f(o)
